@@ -42,9 +42,20 @@ impl<'a> PrettyPrinter<'a> {
                 }
             });
         }
-        self.convert_expr(ctx, field_access.target())
+        self.convert_field_target(ctx, field_access.target())
             + self.arena.text(".")
             + self.convert_ident(field_access.field())
+    }
+
+    /// Convert the innermost target of field accesses. A float like `1.` must be kept apart
+    /// from the dot that follows: `1. .f` is not `1..f`.
+    fn convert_field_target(&'a self, ctx: Context, target: Expr<'a>) -> ArenaDoc<'a> {
+        let doc = self.convert_expr(ctx, target);
+        if matches!(target, Expr::Float(_)) && target.to_untyped().text().ends_with('.') {
+            doc + self.arena.text(" ")
+        } else {
+            doc
+        }
     }
 
     /// Convert the node as dot chain, if in code, or in markup with at least two FieldAccess and one FuncCall.
@@ -140,7 +151,7 @@ impl<'a> PrettyPrinter<'a> {
                         // There is no comment allowed, so we can directly convert args.
                         Some(self.convert_args(ctx, func_call.args()))
                     } else {
-                        node.cast().map(|expr| self.convert_expr(ctx, expr))
+                        node.cast().map(|expr| self.convert_field_target(ctx, expr))
                     }
                 },
             )
